@@ -448,6 +448,14 @@ impl<'a> Tr<'a> {
                 };
                 return Ok(Val { s: "None".into(), ty });
             }
+            {
+                let rn = self.resolve_type_name(n);
+                if let Some(st) = self.t.struct_info(&rn) {
+                    if st.fields.is_empty() {
+                        return Ok(Val { s: st.ctor.clone(), ty: Ty::Adt(rn) });
+                    }
+                }
+            }
             if let Some(c) = self.t.consts.iter().find(|c| c.key == *n) {
                 let c = c.clone();
                 let ma = self.mvar_args(&c.mvars, env, at)?;
